@@ -232,6 +232,37 @@ func c01Gen(r *rand.Rand, tier string) any {
 			shadow.applySpecEdit(&sc.Ops[len(sc.Ops)-1])
 		}
 	}
+	if len(shadow.Exts) > 0 && r.IntN(2) == 0 {
+		// a requirement moves to another version (also under watch-mode Reload): what the
+		// targets reach through the required projects changes, directly or transitively
+		var direct []int
+		for e := range shadow.Exts {
+			if shadow.Exts[e].Sel >= 0 {
+				direct = append(direct, e)
+			}
+		}
+		if len(direct) > 0 {
+			label := pickLabel(r, shadow)
+			for _, t := range shadow.Targets {
+				for _, rf := range t.Refs {
+					if (rf.Kind == "extfunc" || rf.Kind == "extconst") && r.IntN(2) == 0 {
+						label = t.label()
+					}
+				}
+			}
+			sc.Ops = append(sc.Ops, opSpec{Op: "build", Label: label})
+			for k := 0; k < 1+r.IntN(2); k++ {
+				e := direct[r.IntN(len(direct))]
+				if r.IntN(2) == 0 {
+					e = direct[0]
+				}
+				op := opSpec{Op: "bump-req", Item: fmt.Sprint(e), N: shadow.Exts[e].Sel + 1 + r.IntN(len(extVersions)-1)}
+				shadow.applySpecEdit(&op)
+				sc.Ops = append(sc.Ops, op, opSpec{Op: "build", Label: label, Reload: r.IntN(2) == 0})
+			}
+			return sc
+		}
+	}
 	sc.Ops = append(sc.Ops, opSpec{Op: "build", Label: pickLabel(r, shadow)})
 	return sc
 }
